@@ -96,12 +96,17 @@ Proof.
     rewrite (proj2 (option_eqb_spec Z.eqb Z.eqb_eq _ _) eq_refl). reflexivity.
 Qed.
 
+Lemma skind_eqb_eq : forall a b, skind_eqb a b = true <-> a = b.
+Proof. intros [] []; simpl; split; intros H; try discriminate; reflexivity. Qed.
+
 Lemma output_eqb_eq : forall a b, output_eqb a b = true -> a = b.
 Proof.
-  intros a b H. destruct a as [|x|st p|ra|l e| |], b as [|y|st' p'|rb|l' e'| |]; try (simpl in H; discriminate); try reflexivity;
+  intros a b H. destruct a as [|x|st p nx|ra|l e| |], b as [|y|st' p' nx'|rb|l' e'| |]; try (simpl in H; discriminate); try reflexivity;
     try (destruct ra as [|[]|]; simpl in H; discriminate).
   - simpl in H. apply Bool.eqb_prop in H. congruence.
-  - simpl in H. apply andb_true_iff in H. destruct H as [H1 H2]. apply step_eqb_eq in H1. apply Bool.eqb_prop in H2. congruence.
+  - simpl in H. apply andb_true_iff in H. destruct H as [H H3]. apply andb_true_iff in H. destruct H as [H1 H2].
+    apply step_eqb_eq in H1. apply Bool.eqb_prop in H2.
+    apply (option_eqb_spec _ (pair_eqb_eq _ _ _ _ Z.eqb_eq skind_eqb_eq)) in H3. congruence.
   - f_equal. apply rres_eq. exact H.
   - simpl in H. apply andb_true_iff in H. destruct H as [H1 H2].
     apply (list_eqb_spec _ txstatus_eqb_eq) in H1. apply lz_eqb_eq in H2. congruence.
@@ -223,7 +228,8 @@ Lemma model_event_gstep : forall s ev s' o, model_event s ev = Some (s', o) ->
 Proof.
   intros s ev s' o H. destruct ev; cbn [model_event gevent_of gstep] in *; try (inversion H; subst; reflexivity).
   - destruct (apply_signature s id) as [s1 b] eqn:E. inversion H; subst. reflexivity.
-  - destruct (advance _ _ _ _ _) as [st s1 d|]; [inversion H; subst; reflexivity | discriminate].
+  - destruct (advance _ _ _ _ _) as [st s1 d|]; [|discriminate]. destruct (advance_outlook _ _ _ _ _); [|discriminate].
+    inversion H; subst; reflexivity.
   - destruct (crypto_ok && _); [discriminate|].
     destruct (rebuild s id (sat_add tip 1) grid_ok crypto_ok external (sched - chain_base s (sat_add tip 1)) anchor txid) as [s1 r] eqn:E.
     inversion H; subst. reflexivity.
@@ -332,6 +338,7 @@ Proof.
   - (* advance *)
     rewrite (monotone_b_ok _ _ L), T. simpl in M.
     destruct (advance (sat_of answers dflt) (mined_of mined) pre (mk_targets scanned est) (ages, O)) as [st s1 d|] eqn:A; [|discriminate].
+    destruct (advance_outlook (sat_of answers dflt) (mined_of mined) pre (mk_targets scanned est) (ages, O)) as [nx|]; [|discriminate].
     inversion M; subst. simpl.
     assert (B : match st with SBroadcast id => offer_safe_b post (mk_targets scanned est) id | _ => true end = true).
     { destruct st; try reflexivity. apply offer_safe_b_ok. eapply advance_broadcast_safe. exact A. }
